@@ -25,6 +25,9 @@ type EntryContext struct {
 	startTime uint64
 	// the rt of this transaction
 	rt uint64
+	// outcomeReported is true once the slot chain has started to tell the statistic
+	// slots the outcome (passed or blocked) of this entry.
+	outcomeReported bool
 
 	Resource *ResourceWrapper
 	StatNode StatNode
@@ -120,6 +123,7 @@ func (ctx *EntryContext) Reset() {
 	ctx.err = nil
 	ctx.startTime = 0
 	ctx.rt = 0
+	ctx.outcomeReported = false
 	ctx.Resource = nil
 	ctx.StatNode = nil
 	ctx.Input.reset()
